@@ -1,7 +1,7 @@
 /-
 C05 — Loading and re-writing a RapidPro export is lossless.
 -/
-import Rpft.DocumentSpec
+import Rpft.Lemmas.Document
 import Rpft.Gen.Tables
 set_option linter.unusedSimpArgs false
 set_option linter.unusedVariables false
@@ -26,6 +26,33 @@ theorem tables_agree :
     Gen.actionPassThrough = passThroughTypes ∧
     Gen.actionTypes.filter (fun t => !Gen.actionPassThrough.contains t) = specialTypes ∧
     Gen.routerTests = routerTests ∧ Gen.routerNoArgTests = noArgTests := by decide
+
+/-! ### the round trip is lossless -/
+
+/-- **C05, main statement.**  For every valid export document whose switch routers list
+their default category last (`OrderedCats`), whose router nodes list their exits in
+category order (`ExitsByCats`), without typed contact-field references (`UntypedFields`,
+F-C05-a) and without attributes on top-level groups (`PlainGroups`, F-C05-b):
+loading succeeds, rendering succeeds, and the rendered document is `≈` the input
+(equal up to omitted empty optional keys, `_ui` on node positions, both keyword forms). -/
+theorem render_load (d : DocD) (hv : Valid d) (ho : OrderedCats d) (hx : ExitsByCats d)
+    (hu : UntypedFields d) (hp : PlainGroups d) :
+    ∃ c o, load d = .ok c ∧ render c = .ok o ∧ o ≈ d := by
+  have hn := nodeOk_of d hv ho hx hu
+  exact ⟨docImg d, outDoc d, load_ok d hv hn, render_ok d hv hn, normDoc_outDoc d hv hn hp⟩
+
+/-- the same, for the observable `from_dict(d).render()` -/
+theorem roundtrip_lossless (d : DocD) (hv : Valid d) (ho : OrderedCats d) (hx : ExitsByCats d)
+    (hu : UntypedFields d) (hp : PlainGroups d) : ∃ o, roundtrip d = .ok o ∧ o ≈ d := by
+  obtain ⟨c, o, h1, h2, h3⟩ := render_load d hv ho hx hu hp
+  exact ⟨o, by simp [roundtrip, h1, h2], h3⟩
+
+/-- what is written is explicit: every field of the output is the input's field, except
+the normalisations listed in `outDoc` (used by the idempotence theorem) -/
+theorem roundtrip_eq (d : DocD) (hv : Valid d) (ho : OrderedCats d) (hx : ExitsByCats d)
+    (hu : UntypedFields d) : roundtrip d = .ok (outDoc d) := by
+  have hn := nodeOk_of d hv ho hx hu
+  simp [roundtrip, load_ok d hv hn, render_ok d hv hn]
 
 /-! ### legacy triggers -/
 
